@@ -24,9 +24,13 @@ def inv_clauses(rep, label):
             cl.append((f"{label}: removed/absent column {p!r} is not reachable by attribute", T(not has)))
     return cl
 
-def value_spec(ctx, tag, maxlen):
+def value_spec(ctx, tag, maxlen, strings=False):
     kind = choice(f"{tag}_kind", ["scalar", "list", "array", "column"])
     n = 1 if kind == "scalar" else choice(f"{tag}_len", range(0, maxlen + 1))
+    if strings and choice(f"{tag}_text", [False, True]):
+        c = symx.sym_str(tag)
+        ctx.assume(z3.Not(c.is_empty()), note="broadcast values: floats or non-missing strings (any content, short or 52+ characters)")
+        return [kind, n, symx.SymStr(c)]
     return [kind, n, 1.5]
 
 class Broadcast(Harness):
@@ -38,11 +42,11 @@ class Broadcast(Harness):
         self.maxlen = maxlen
         self.name = f"C01.broadcast.len{maxlen}"
         self.bounds = {"columns": "2 in the constructor + 1 assigned", "lengths": f"0..{maxlen}, scalar"}
-        self.symbolic = []; self.choice_dims = ["value form (scalar/list/ndarray/DataFrameColumn)", "lengths", "assignment by key or attribute"]
+        self.symbolic = ["contents of string values"]; self.choice_dims = ["value form (scalar/list/ndarray/DataFrameColumn)", "lengths", "float or string values", "assignment by key or attribute"]
     def build(self, ctx):
-        a = value_spec(ctx, "a", self.maxlen); b = value_spec(ctx, "b", self.maxlen)
+        a = value_spec(ctx, "a", self.maxlen); b = value_spec(ctx, "b", self.maxlen, strings=True)
         how = choice("assign", ["setitem", "setattr"])
-        return {"init": [["a", a], ["b", b]], "steps": [{"op": how, "name": choice("target", ["c", "a"]), "value": value_spec(ctx, "v", self.maxlen)}]}
+        return {"init": [["a", a], ["b", b]], "steps": [{"op": how, "name": choice("target", ["c", "a"]), "value": value_spec(ctx, "v", self.maxlen, strings=True)}]}
     def spec(self, inp, out):
         if isinstance(out, Raised): return [(f"operation harness failed {out}", T(False))]
         (_, a), (_, b) = inp["init"]
